@@ -8,6 +8,10 @@ cd coq
 [ -f Makefile ] || coq_makefile -f _CoqProject $(find . -name '*.v' | sort) -o Makefile >/dev/null
 timeout 3000 make -k -j16 >../build/coq-make.log 2>&1 || true
 cd ..
-if [ -f coq/xm.ml ]; then mv coq/xm.ml coq/xm.mli ocaml/; fi
-(cd ocaml && ocamlfind ocamlopt -w -a xm.mli xm.ml driver.ml -o ../build/driver)
-g++ -std=c++17 -O1 -g -c rt/xvrt.cpp -o build/xvrt.o
+python3 - <<'PY'
+import sys; sys.path.insert(0, 'tools')
+import xvlib
+d, err = xvlib.build_driver()
+print('driver:', d, err[-300:])
+xvlib.build_rt()
+PY
